@@ -1,6 +1,6 @@
 /* c09_isolation.c - C09: messages and units are isolated: nothing but status and errors carries over.
  * Bounded-exhaustive, differential: message set M = every single unit and every ordered pair of units over a
- * 46-unit alphabet (compound paths, common commands, parameters of every kind incl. malformed lists, queries
+ * 49-unit alphabet (compound paths, headers whose table entry has no callback, common commands, parameters of every kind incl. malformed lists, queries
  * that succeed / fail midway / leave a block unfinished / write block data without a header, invalid and
  * incomplete units), each NL-terminated.  For every ordered pair (A, B) in M x M (quick: A in M, B in singles
  * and a third of the pairs) the complete trace of B executed after A on the same context (handler invocations
@@ -13,7 +13,7 @@
 static const char * units[] = {
     "AAAA:Bb", "AAAA:Bb?", "Ee", ":AAAA:Dd:Ee", "Bb", "AAAA:Cc3", "*XY", "*XY?", "ZZ", "AAAA:ZZ",
     "I2 1,2", "I2 1", "I2 1,2,3", "I2 x,1", "I2 1,", "OPT", "OPT 5", "CH ON", "CH XYZ", "NUM 1 V", "NUM 1 ZZ", "TXT \"a;b\"", "TXT? 'x'",
-    "Q1?", "Q2?", "Q0?", "Q0E?", "Q1E?", "QPART?", "QTAIL?", "QB?", "Q1P? 5", "C0", "CE", "@", "", "AAAA:", "BLK #13a;b", "BLK #13a\nb", "ARR 1,2,x", "EXPR (1:2,5)", "AAAA:Gg:Ii", "AAAA:Gg", "I2 12,34", "DBL? 2.5", "OPT 7",
+    "Q1?", "Q2?", "Q0?", "Q0E?", "Q1E?", "QPART?", "QTAIL?", "QB?", "Q1P? 5", "C0", "CE", "@", "", "AAAA:", "BLK #13a;b", "BLK #13a\nb", "ARR 1,2,x", "EXPR (1:2,5)", "AAAA:Gg:Ii", "AAAA:Gg", "I2 12,34", "DBL? 2.5", "OPT 7", "RESV", "RESV 1", "RESV? 1",
 };
 #define NU ((int) (sizeof units / sizeof units[0]))
 #define NM (NU + NU * NU)
@@ -29,6 +29,7 @@ static int make_msg(int m, char * buf) {
 typedef struct { char * tr; size_t trn; char * out; size_t outn; int res; } ref_t;
 static ref_t * fresh;
 static tc_t T;
+static int heap_cfg_quick = 0;
 static unsigned long long n_pairs = 0, n_nontrivial = 0;
 
 static int run_b(const char * b, int bl) {
@@ -44,6 +45,9 @@ int main(int argc, char ** argv) {
     char ma[128], mb[128];
     mc_init(argc, argv);
     mc_tail_poison = 1;
+#if USE_DEVICE_DEPENDENT_ERROR_INFORMATION && !USE_MEMORY_ALLOCATION_FREE
+    heap_cfg_quick = !mc_thorough;       /* quick, static-heap build: single-unit pairs and the heap histories */
+#endif
     tc_init(&T, mt_cmds, 256, 64);
     fresh = (ref_t *) calloc((size_t) NM, sizeof (ref_t));
     for (b = 0; b < NM; b++) {
@@ -58,6 +62,7 @@ int main(int argc, char ** argv) {
         int al = make_msg(a, ma);
         for (b = 0; b < NM; b++) {
             int bl;
+            if (heap_cfg_quick && (a >= NU || b >= NU)) continue;
             if (!MC_CASE()) continue;
             bl = make_msg(b, mb);
             mc_case_tag = "pair"; mc_case_s[0] = (const unsigned char *) ma; mc_case_n[0] = (size_t) al; mc_case_s[1] = (const unsigned char *) mb; mc_case_n[1] = (size_t) bl;
@@ -84,6 +89,49 @@ int main(int argc, char ** argv) {
             mc_outcome(mc_hash(TR, TRN, (uint64_t) a * 7919u));
         }
     }
+#if USE_DEVICE_DEPENDENT_ERROR_INFORMATION && !USE_MEMORY_ALLOCATION_FREE
+    {   /* static-heap build: A = every history of <= 5 messages that store, read and clear error texts in a 16-byte heap (texts
+         * wrap around its end); then the queue is emptied and the registers are cleared through the API; B raises errors whose
+         * texts need the whole heap.  B's trace INCLUDING the texts of the errors it queued must equal B on a fresh context:
+         * the allocator's bookkeeping is not one of the channels the statement excepts. */
+        static const char * hm[] = {"AAAAAA\n", "BBBBB\n", "SYST:ERR?\n", "*CLS\n", "CCCCCC;DD\n"};
+        static const char * hb[] = {"ABCDEFGHIJKLMNO\n", "XYZ\n", "ABCDEFG;HIJKLM\n"};
+        static tc_t H;
+        char fr[3][600], info[300];
+        int k, i, idx[6], bi, KH = mc_thorough ? 6 : 5;
+        tc_heap_len = 16; tc_init(&H, mt_cmds, 256, 8);
+        for (bi = 0; bi < 3; bi++) {
+            size_t o = 0;
+            tc_reinit(&H, mt_cmds); tr_reset();
+            SCPI_Input(&H.ctx, hb[bi], (int) strlen(hb[bi]));
+            o = (size_t) snprintf(fr[bi], sizeof fr[bi], "%s|", TR);
+            while (SCPI_ErrorCount(&H.ctx) > 0 && o + 320 < sizeof fr[bi]) { int c = tc_pop(&H, info, sizeof info); o += (size_t) snprintf(fr[bi] + o, sizeof fr[bi] - o, "%d:%s|", c, info); }
+        }
+        for (k = 1; k <= KH; k++) {
+            for (i = 0; i < k; i++) idx[i] = 0;
+            for (;;) {
+                for (bi = 0; bi < 3; bi++) {
+                    char got[600], hist[128]; size_t o = 0, ho = 0;
+                    if (!MC_CASE()) continue;
+                    tc_reinit(&H, mt_cmds);
+                    for (i = 0; i < k; i++) { SCPI_Input(&H.ctx, hm[idx[i]], (int) strlen(hm[idx[i]])); ho += (size_t) snprintf(hist + ho, sizeof hist - ho, "%s", hm[idx[i]]); }
+                    mc_case_tag = "heap-history"; mc_case_s[0] = (const unsigned char *) hist; mc_case_n[0] = ho; mc_case_s[1] = (const unsigned char *) hb[bi]; mc_case_n[1] = strlen(hb[bi]);
+                    while (SCPI_ErrorCount(&H.ctx) > 0) tc_pop(&H, info, sizeof info);          /* read everything back */
+                    SCPI_Input(&H.ctx, "*CLS\n", 5);
+                    tr_reset();
+                    SCPI_Input(&H.ctx, hb[bi], (int) strlen(hb[bi]));
+                    o = (size_t) snprintf(got, sizeof got, "%s|", TR);
+                    while (SCPI_ErrorCount(&H.ctx) > 0 && o + 320 < sizeof got) { int c = tc_pop(&H, info, sizeof info); o += (size_t) snprintf(got + o, sizeof got - o, "%d:%s|", c, info); }
+                    n_pairs++; n_nontrivial++;
+                    if (strcmp(got, fr[bi])) mc_viol("c09/error-text-storage-leaks", "history [%s], queue read back and *CLS, then B [%s]: trace and queued errors [%s]; B on a fresh context [%s]", mc_e(hist, ho), mc_es(hb[bi]), mc_es(got), mc_es(fr[bi]));
+                }
+                for (i = k - 1; i >= 0; i--) { if (++idx[i] < 5) break; idx[i] = 0; }
+                if (i < 0) break;
+            }
+        }
+        tc_free(&H);
+    }
+#endif
     /* units of one message: for "a;b" where a has no header path to pass on, the handler and error events must be
      * those of "a" alone followed by those of "b" alone (response framing and SCPI_Input result aside) */
     for (a = 0; a < NU; a++) for (b = 0; b < NU; b++) {
